@@ -637,3 +637,15 @@ silent("c15-s-safesub-negate-first", "C15", ARRAY,
 rename("C15", NUMPY_LOG, "einsum")
 rename("C15", ARRAY, "_safesub")
 rename("C15", ARRAY, "_safediv")
+
+fire("c05-unfold-freshness-test-dropped", "C05", OPTIMIZER,
+     "        if v.reduced_vars and any(v.reduced_vars & t.input_vars for t in siblings):\n            continue\n", "", "R05.6", "unfold_contraction_generic_tuple")
+fire("c08-unfold-freshness-test-dropped", "C08", OPTIMIZER,
+     "        if v.reduced_vars and any(v.reduced_vars & t.input_vars for t in siblings):\n            continue\n", "", "R08.8", "unfold_contraction_generic_tuple")
+fire("c05-normalize-fuse-with-siblings-and-binders", "C05", CNF,
+     "        if (v.red_op is ops.null and bin_op is v.bin_op) or (\n            bin_op is ops.null and v.red_op in (red_op, ops.null)\n        ):",
+     "        if (v.red_op in (red_op, ops.null) and bin_op is v.bin_op) or (\n            bin_op is ops.null and v.red_op in (red_op, ops.null)\n        ):", "R05.6", "normalize_contraction_generic_tuple")
+silent("c05-s-unfold-freshness-isdisjoint", "C05", OPTIMIZER,
+       "        if v.reduced_vars and any(v.reduced_vars & t.input_vars for t in siblings):\n            continue\n",
+       "        if not all(v.reduced_vars.isdisjoint(t.input_vars) for t in siblings):\n            continue\n")
+rename("C05", OPTIMIZER, "unfold_contraction_generic_tuple")
